@@ -50,6 +50,10 @@ void gen_sched(sim::Rng& rng, Json& plan, sim::u64 horizon, bool allow_stalls)
         s["stall_ppm"] = static_cast<int>(200 + rng.below(3000));
         s["stall_max_us"] = static_cast<int>(1000 + rng.below(50000));
     }
+    if (allow_stalls && rng.chance(0.3)) {
+        s["start_delay_permille"] = static_cast<int>(200 + rng.below(700));
+        s["start_delay_max_us"] = static_cast<int>(50 + rng.below(3000));
+    }
     plan["sched"] = s;
 }
 
@@ -65,6 +69,8 @@ sim::Config sched_from_plan(const Json& plan)
     c.sticky_p = static_cast<double>(s.num("keep_permille", 800)) / 1000.0;
     c.stall_p = static_cast<double>(s.num("stall_ppm", 0)) / 1e6;
     c.stall_max_ns = s.num("stall_max_us", 50000) * 1000;
+    c.start_delay_p = static_cast<double>(s.num("start_delay_permille", 0)) / 1000.0;
+    c.start_delay_max_ns = s.num("start_delay_max_us", 2000) * 1000;
     c.max_steps = static_cast<sim::u64>(s.num("max_steps", 400000));
     const Json& g = s.get("choices");
     for (size_t i = 0; i < g.size(); ++i) c.guided.push_back(static_cast<int>(g.at(i).as_int()));
